@@ -83,9 +83,9 @@ func zzInsertInfo(infos []*resource.Info, pos int, x *resource.Info) []*resource
 
 
 // vf_RegisterDir: a directory holding the documents of infos in order; badAt[i]=k places a syntactically broken
-// file before document k. Under symgo the call is intercepted: the directory lives in the scanner stub. Natively
+// file before document k; the documents whose index is in nested go to a sub-directory. Under symgo the call is intercepted: the directory lives in the scanner stub. Natively
 // real files are written to a temporary directory and the real scanner reads them.
-func vf_RegisterDir(name string, infos []*resource.Info, badAt []int) string {
+func vf_RegisterDir(name string, infos []*resource.Info, badAt []int, nested []int) string {
 	dir, err := os.MkdirTemp("", "zzdir-"+name+"-")
 	if err != nil {
 		panic(err)
@@ -110,7 +110,16 @@ func vf_RegisterDir(name string, infos []*resource.Info, badAt []int) string {
 			if err != nil {
 				panic(err)
 			}
-			if err := os.WriteFile(filepath.Join(dir, fmt.Sprintf("%03d-doc.json", n)), b, 0o600); err != nil {
+			target := dir
+			for _, k := range nested {
+				if k == i {
+					target = filepath.Join(dir, "sub")
+					if err := os.MkdirAll(target, 0o700); err != nil {
+						panic(err)
+					}
+				}
+			}
+			if err := os.WriteFile(filepath.Join(target, fmt.Sprintf("%03d-doc.json", n)), b, 0o600); err != nil {
 				panic(err)
 			}
 			n++
